@@ -57,15 +57,29 @@ def cases(tier, seed):
     allc = _all(tier)
     sems = ["sum-product", "complex-lse-sum"]
     out = []
+    def zero_derivative(c):
+        # order > degree: the derivative is identically zero, whose logarithm (-inf, with an arbitrary
+        # imaginary part) is outside what the shadow algebra validates in the complex-log semiring
+        base = c["circuit"]["base"]
+        deg = int(str(base.get("input", "poly0"))[4:])
+        for op in c["circuit"]["ops"]:
+            if op[0] == "square":
+                deg *= 2
+            if op[0] == "differentiate" and op[1] > deg:
+                return True
+        return False
+
     if tier == "quick":
         rnd.shuffle(allc)
         for i, c in enumerate(allc[:24]):
             d = dict(c)
-            d["semiring"] = sems[(i + seed) % 2]
+            d["semiring"] = "sum-product" if zero_derivative(c) else sems[(i + seed) % 2]
             out.append(d)
     else:
         for c in allc:
             for s in sems:
+                if s != "sum-product" and zero_derivative(c):
+                    continue
                 d = dict(c)
                 d["semiring"] = s
                 out.append(d)
